@@ -21,14 +21,14 @@ func init() {
 	})
 	core.Register(&core.Spec{
 		ID: "C11", Engine: "node", Run: c11Run,
-		QuickRuns: 3000, ThorRuns: 200000, QuickCap: 60 * time.Second, ThorCap: 12 * time.Minute,
+		QuickRuns: 10000, ThorRuns: 200000, QuickCap: 60 * time.Second, ThorCap: 12 * time.Minute,
 		Rule: "a run starts a real sidecar (push or file mode, self-monitoring on/off) and applies 2-6 operations in any order - a new configuration composed from a catalogue (global, rule_files, alerting with auth, 1-4 jobs with every auth kind / limits / params / honor flags / relabel and metric-relabel programs / static, file, dns, kubernetes, http, consul SD, remote write/read with basic-auth, bearer token, authorization, oauth2, sigv4; every secret a unique token; drawn YAML style) or a new assignment (jobs without targets, targets of a non-existent job, both states, odd label names, params) - and after each one loads the generated file with config.Load and compares it field-wise with the latest configuration x latest assignment; a case is (jobs, remote-write entries, alerting?, jobs with targets, self-monitor, kind of last operation)",
 		Real: realNode, Stub: stubNode,
 		Assume: []string{"comparison is on structs loaded by the vendored Prometheus library (config.Load) for both the original and the generated text"},
 	})
 	core.Register(&core.Spec{
 		ID: "C09", Engine: "node", Run: c09Run,
-		QuickRuns: 160, ThorRuns: 20000, QuickCap: 70 * time.Second, ThorCap: 12 * time.Minute,
+		QuickRuns: 120, ThorRuns: 20000, QuickCap: 70 * time.Second, ThorCap: 12 * time.Minute,
 		Rule: "a run draws two consecutive assignments A -> B (empty / one / many / large >64 KiB store; both states; label values needing JSON escaping; optionally an old-format targets.json as starting point), checks clean restarts, then injects store faults into the real TargetsManager's persisting of B: the store write cut at byte N by RLIMIT_FSIZE for every N of small stores (complete sub-sweep) or drawn N of large ones, the same cut applied to the write Load performs at start, the same update in a separate OS process with a cut, and that process SIGKILLed by strace on entry to the K-th syscall touching the store file for every K; after each fault a fresh start must succeed and resume A or B, and a second start must agree; a case is (kind of A) x (kind of B) x old-format?",
 		Real: []string{"sidecar.TargetsManager (Load, UpdateTargets, store file on a real directory)", "kernel file system", "a separate OS process for the child variant"},
 		Stub: []string{"no update callbacks are registered (the injector's own file is not part of this property)"},
@@ -44,7 +44,7 @@ func init() {
 	})
 	core.Register(&core.Spec{
 		ID: "C13", Engine: "node", Run: c13Run,
-		QuickRuns: 3000, ThorRuns: 150000, QuickCap: 60 * time.Second, ThorCap: 12 * time.Minute,
+		QuickRuns: 8000, ThorRuns: 150000, QuickCap: 60 * time.Second, ThorCap: 12 * time.Minute,
 		Rule: "a run drives 2-10 scrapes (plus complete sweeps over every break offset of a small payload) through a real net/http server serving the real Proxy over net.Pipe connections to a real http.Client configured with the proxy URL, all inside one synctest bubble; per scrape a drawn target (assigned normal / assigned in_transfer / unassigned), payload, gzip, chunking and failure stage (connect, non-200 status, timeout on the fake clock, body break at a drawn offset, corrupted gzip stream, administratively stopped); a case is (failure stage class) x (assigned?) x gzip",
 		Real: append([]string{"net/http server and client over net.Pipe"}, realNode...), Stub: stubNode,
 		Assume: []string{"the Prometheus-side client waits longer (15 s) than the job's scrape_timeout (10 s), so a time-out is the proxy's verdict, not the client's"},
